@@ -286,6 +286,49 @@ def check_plane(bounds, grid, state, hist, st):
             st.violation(sig, {**case, "query": q}, exp, got, "find != brute-force proper overlap")
 
 
+# ---- planes with far more than 1000 grid cells (added after seeded defect C20_13, a cell budget in _getrange, was missed)
+BIG_BOUNDS = [(0.0, 0.0, 2000.0, 2000.0, 50), (-300.0, -100.0, 150.0, 200.0, 5), (0.0, 0.0, 90.0, 40.0, 1)]
+BIG_BOXES = [("bg", 0.0, 0.0, 1.0, 1.0), ("hi", 0.95, 0.95, 0.955, 0.955), ("lo", 0.005, 0.005, 0.01, 0.01), ("band", 0.0, 0.6, 1.0, 0.62), ("col", 0.7, 0.0, 0.72, 1.0)]
+BIG_Q = [0.0, 0.004, 0.3, 0.61, 0.71, 0.952, 1.0]
+
+
+def run_bigplane(bi, st):
+    x0, y0, x1, y1, grid = BIG_BOUNDS[bi]
+    w, h = x1 - x0, y1 - y0
+    objs = {n: Box(n, x0 + a * w, y0 + b * h, x0 + c * w, y0 + d * h) for (n, a, b, c, d) in BIG_BOXES}
+    names = list(objs)
+    queries = [(x0 + a * w, y0 + b * h, x0 + c * w, y0 + d * h) for a in BIG_Q for c in BIG_Q if a < c for b in BIG_Q for d in BIG_Q if b < d]
+    for order in itertools.permutations(names):
+        for removed in [None] + names:
+            pl = utils.Plane((x0, y0, x1, y1), gridsize=grid)
+            hist = []
+            for n in order:
+                pl.add(objs[n])
+                hist.append(("add", n))
+            live = list(order)
+            if removed:
+                pl.remove(objs[removed])
+                live.remove(removed)
+                hist.append(("remove", removed))
+            st.states += 1
+            st.transitions += len(hist)
+            st.traces += 1
+            st.case(None, nontrivial=True, outcome=("big", bi, tuple(live)))
+            case = {"kind": "bigplane", "bounds": bi, "hist": hist}
+            if [o.name for o in pl] != live:
+                st.violation("C20/plane-iter-order-or-duplicates", case, live, [o.name for o in pl], "iteration != live objects in insertion order")
+            # one order is enough for the full query grid (find does not depend on insertion order beyond the result order)
+            if order != tuple(names) and removed is not None:
+                continue
+            for q in queries:
+                got = sorted(o.name for o in pl.find(q))
+                exp = sorted(n for n in live if proper((objs[n].x0, objs[n].y0, objs[n].x1, objs[n].y1), q))
+                st.add("find_queries", 1)
+                if got != exp:
+                    st.violation("C20/plane-find-missing" if set(exp) - set(got) else "C20/plane-find-extra", {**case, "query": q}, exp, got, "find != brute-force proper overlap (plane of more than 1000 cells)")
+                    return
+
+
 def run_index(bounds, grid, first, depth, st):
     names = [b[0] for b in BOXES]
 
@@ -320,6 +363,7 @@ SUB = [0, 2, 5, 8, 10, 15, 18, 21, 24, 27, 30, 34, 38, 41, 44, 51, 58, 65]
 def shards(tier):
     out = [("pairs", i) for i in range(len(POOL))]
     out += [("triples", i) for i in range(len(POOL))]
+    out += [("bigplane", i) for i in range(len(BIG_BOUNDS))]
     depth = 5 if tier == "quick" else 7
     for b in range(len(BOUNDS)):
         for g in GRIDS:
@@ -341,6 +385,10 @@ def run_shard(shard, tier, st):
         for j in js:
             for k in js:
                 algebra_triple(i, j, k, st)
+    elif shard[0] == "bigplane":
+        run_bigplane(shard[1], st)
+        if shard[1] == 0:
+            st.sample({"family": "bigplane", "bounds": BIG_BOUNDS, "boxes": [b[0] for b in BIG_BOXES]})
     else:
         _, b, g, n, depth = shard
         r = run_index(BOUNDS[b], g, n, depth, st)
@@ -354,6 +402,9 @@ def replay(case):
 
     st = Stats()
     k = case["kind"]
+    if k == "bigplane":
+        run_bigplane(case["bounds"], st)
+        return [{"signature": v["signature"], "expected": repr(v["expected"]), "observed": repr(v["observed"])} for v in st.violations]
     if k == "plane":
         hist = tuple(tuple(x) for x in case["hist"])
         state = build_plane(tuple(case["bounds"]), case["grid"], hist)
